@@ -6,8 +6,18 @@ from .core import Anchor
 _cache = {}
 
 
+def _kwkey(v):
+    try:
+        hash(v)
+        return v
+    except TypeError:
+        return ("id", id(v))
+
+
 def analyse(body, **kw):
-    k = (id(body), tuple(sorted(kw)))
+    # (the key holds the option values, not only their names: two analysers with different inline sets or features must
+    # not share results)
+    k = (id(body), tuple(sorted((n, _kwkey(v)) for n, v in kw.items())))
     r = _cache.get(k)
     if r is None or r[0] is not body:
         I = absint.analyse(body, **kw)
@@ -16,11 +26,42 @@ def analyse(body, **kw):
     return r[1]
 
 
+NEEDED = []   # (crate, body) pairs a rule pack asked for by name: the entry points it judges
+
+
 def need_body(crate, name):
     b = crate.body(name)
     if b is None:
         raise Anchor("function %s not found in crate %s" % (name, crate.name))
+    NEEDED.append((crate, b))
     return b
+
+
+def rule_entry_names(col, rid="ENTRY"):
+    """A public free function that a pack judges by name must be what callers of that name get: another public free function of
+    the same name elsewhere in the crate (a wrapper placed where the re-export used to be) either forwards to it unchanged or
+    is an implementation nobody has looked at."""
+    seen = set()
+    col.rule(rid, "no second public free function carries the name of a judged entry point, except a plain forwarder to it", floor=0)
+    for crate, b in NEEDED:
+        if b.kind != "Fn" or b.container is not None or b.vis != "pub" or b.key in seen:
+            continue
+        seen.add(b.key)
+        for o in crate.bodies:
+            if o.key == b.key or o.is_closure or o.kind != "Fn" or o.container is not None or o.vis != "pub" or o.name != b.name:
+                continue
+            I = analyse(o)
+            fwd = bool(I.final_states)
+            for st in I.final_states:
+                calls = [e for e in st.event_list() if e.kind == "call"]
+                own = [e for e in calls if (e.fn.get("resolved") or e.fn).get("def") == b.key]
+                params = [("param", i + 1, I.names.get(i + 1)) for i in range(o.arg_count)]
+                fwd = fwd and len(calls) == 1 and len(own) == 1 and list(own[0].args) == params and ret_term(st) == own[0].res
+            key = "%s|same-name|%s" % (fkey(b), fkey(o))
+            if fwd:
+                col.ok(rid, o.loc(), key, "forwards to %s unchanged" % b.path, nontrivial=False)
+            else:
+                col.violation(rid, key, o.loc(), "%s is a second public function named `%s`: callers of that name may get it instead of %s, and it is not a plain forwarder to it (the rules of this property were applied to %s only)" % (o.path, b.name, b.path, b.path))
 
 
 def opt_body(crate, name):
